@@ -427,7 +427,9 @@ def text_scan(path):
         tok = m.group(0)
         if tok.startswith("reportErr") and not tok.startswith("reportError"):
             a = text_args(code, full, m.end() - 1)
-            if a is not None and len(a) <= 1:
+            if a is not None and len(a) == 1 and a[0].lstrip().startswith("{"):
+                tok = "ErrorMessage-brace"      # reportErr({callstack, ..., "id", ...}): implicit construction from a braced list
+            elif a is not None and len(a) <= 1:
                 continue            # ErrorLogger::reportErr(msg): hands an existing message on, no id argument
         if tok.startswith("emplace"):
             a = text_args(code, full, m.end() - 1)
@@ -435,7 +437,7 @@ def text_scan(path):
                 continue            # only in-place constructions that look like ErrorMessage(..., Severity, ...)
         if tok.startswith("ErrorMessage") and re.search(r"\w\s*::\s*$", code[max(0, off - 40):off]):
             continue                # SuppressionList::ErrorMessage and other nested names
-        kind = "reportError" if tok.startswith("reportError") else "reportErr" if tok.startswith("reportErr") else \
+        kind = "emplace" if tok == "ErrorMessage-brace" else "reportError" if tok.startswith("reportError") else "reportErr" if tok.startswith("reportErr") else \
             "InternalError" if tok.startswith("InternalError") else "ErrorMessage" if tok.startswith("ErrorMessage") else \
             "emplace" if tok.startswith("emplace") else "idassign"
         cands.append(dict(off=off, line=code.count("\n", 0, off) + 1, kind=kind, fn=enc, text=full[ls:le].strip(), after=code[m.end():m.end() + 120]))
@@ -1989,7 +1991,7 @@ def enc(s):
     return n
 
 
-COVERAGE_FLOOR = 0.5     # thorough tier: fraction of the non-exempt table ids some run must report (measured: see docs)
+COVERAGE_FLOOR = 0.85    # thorough tier: fraction of the non-exempt table ids some run must report (measured: see docs)
 PASSES = 2      # must equal `passes` in lean/Cppcheck/Props/C28.lean
 SEVS = ("none", "error", "warning", "style", "performance", "portability", "information", "debug", "internal")
 KIND_LEAN = {"library-function": "libraryFunction", "addon": "addon", "clang-tidy": "clangTidy", "rule-file": "ruleFile",
@@ -2424,7 +2426,9 @@ def run(ctx, res):
     cli_only = set(i for i in table_ids if all(r[3] == "cli" for r in T["rows"] if r[5] == i))
     cases = []
     for w in load_witnesses():
-        if w.get("absent"):
+        if w.get("probe"):
+            cases.append(dict(tag="p_" + re.sub(r"\W+", "_", w["id"]), files=w["files"], args=w["args"] + w.get("analyse", []), origin="corpus"))
+        elif w.get("absent"):
             cases.append(dict(tag="n_" + w["id"], files=w["files"], args=w["args"] + w.get("analyse", []), absent=w["id"], origin="corpus"))
         else:
             cases.append(dict(tag="w_" + w["id"], files=w["files"], args=w["args"] + w.get("analyse", []), expect=w["id"], origin="corpus"))
@@ -2493,7 +2497,7 @@ def run(ctx, res):
             srcs[name] = code
         for attempt in range(20):
             try:
-                rc, out, err = core.sh([ctx.cppcheck] + BASE_ARGS + ["--check-library", "--debug-warnings", "-j", "3", "."], cwd=d, timeout=1200)
+                rc, out, err = core.sh([ctx.cppcheck] + BASE_ARGS + ["--check-library", "--debug-warnings", "-j", "4", "."], cwd=d, timeout=1200)
                 break
             except OSError:
                 time.sleep(3)
